@@ -31,7 +31,7 @@ def all_words(letters, maxlen):
     return out
 
 
-def build(words, nseg, rng, freqs):
+def build(words, nseg, rng, freqs, drop_first=False):
     """One document per lexicon word (plus repeats to vary frequencies); returns (ix, abstract idx)."""
     from whoosh import fields, analysis
     from whoosh.filedb.filestore import RamStorage
@@ -57,6 +57,12 @@ def build(words, nseg, rng, freqs):
             w.add_document(key=u"k%d" % len(docs), sp=word)
             docs.append({"live": True, "t": {"sp": [az(word)]}, "n": {}, "b4": 4})
         w.commit(merge=False)
+    if drop_first:
+        # the first document is deleted and merged away (the words of the others must stay where they are)
+        w = ix.writer()
+        w.delete_by_term("key", u"k0")
+        w.commit(optimize=True)
+        docs = docs[1:]
     return ix, {"docs": docs}
 
 
@@ -89,9 +95,11 @@ def check(run):
               [1, 5, 3, 3], [1, 6, 2], [1, 6], [6, 2], [6]]   # multi-byte / non-BMP letters (two of them, in order)
     cases, metas = [], []
     qwords = words + [[1, 1, 2, 2, 1][:maxlen + 1], [2] * (maxlen + 1)]
-    for nseg in (1, 3):
+    for nseg, drop_first in ((1, False), (3, False), (2, True)):
         freqs = dict((tuple(w), rng.choice([1, 1, 2, 3])) for w in words)
-        ix, idx = build(words, nseg, rng, freqs)
+        ix, idx = build(words, nseg, rng, freqs, drop_first=drop_first)
+        if drop_first:
+            nseg = 1
         docof = dict((tuple(d["t"]["body"][0]), i) for i, d in enumerate(idx["docs"]) if d["t"].get("body"))
         qs = []
         with ix.searcher() as s:
